@@ -158,7 +158,21 @@ class Dedup:
         if sig in self.seen:
             return
         self.seen[sig] = desc
+        self.replays = getattr(self, "replays", {})
+        self.replays[sig] = replay_text
         self.rep.direct.append((sig, desc, replay_text))
+
+    def finish(self):
+        """evidence: every signature with its count and first example; one replay file per signature (core.Report.finish writes
+        only the replay of the first unlisted signature)"""
+        rep = self.rep
+        rep.cov["signatures"] = {sig: dict(count=self.stats["sig " + sig], example=desc[:600]) for sig, desc in self.seen.items()}
+        os.makedirs(core.REPLAYS, exist_ok=True)
+        for sig, text in getattr(self, "replays", {}).items():
+            path = os.path.join(core.REPLAYS, "%s-%s-seed%d.txt" % (rep.prop, re.sub(r"[^A-Za-z0-9]+", "_", sig)[:90], rep.seed))
+            with open(path, "w") as f:
+                f.write("# property %s violated: %s\n# signature: %s\n# replay: ./check.py %s --replay %s\n" % (rep.prop, self.seen[sig].replace("\n", " ")[:1000], sig, rep.prop, path))
+                f.write(text)
 
 
 # ============================================================================================== C20
@@ -451,6 +465,7 @@ def run_c20(tier, seed, replay=None, theorems=None, module=None):
                 prev_faulted = faulted
             if len(sv["steps"]) == len(c["steps"]) and not sv["died"] and sv["san"]:
                 dd.add("router-fault-sanitizer-report", "sanitizer output of a server that went through router faults (process survived): " + asan_summary(sv["san"]), c20_replay_text(c))
+        dd.finish()
         rep.cov["input_distribution"] = dict(stats)
         rep.cov["streams"] = dict(C20_STREAMS)
         rep.cov["timing"] = dict(http_s=round(t_http, 1), servers_in_parallel=PAR, mean_sequence_s=round(sum(s["t"] for s in served) / max(1, len(served)), 2))
@@ -855,6 +870,7 @@ def run_c15(tier, seed, replay=None, theorems=None, module=None):
                     dd.add("crash-after-refresh", "history %s: the server process was found dead at the end (rc %s): %s" % (h["did"], sv["rc"], asan_summary(sv["san"])), c15_replay_text(h))
                 elif sv["san"]:
                     dd.add("sanitizer-after-refresh", "history %s: sanitizer output of the long-lived server: %s" % (h["did"], asan_summary(sv["san"])), c15_replay_text(h))
+        dd.finish()
         rep.cov["input_distribution"] = dict(stats)
         rep.cov["streams"] = dict(C15_STREAMS)
         rep.cov["timing"] = dict(inproc_and_model_s=round(t_inproc, 1), http_s=round(t_http, 1), servers_in_parallel=PAR, mean_history_s=round(sum(s["t"] for s in served) / max(1, len(served)), 2))
@@ -877,7 +893,7 @@ C17_BREAK_CLASS = {
     "path_data": "path-data-not-json", "scenario_ids": "scenario-unknown-ids", "scenario_only_unknown": "scenario-only-unknown-ids", "scenario_uuid": "malformed-scenario-service-uuid",
 }
 # quick / thorough volumes: (datasets with the full byte-level enumeration, datasets with a reduced one, datasets for the --break kinds)
-C17_VOLUME = {"quick": dict(full=1, reduced=1, breaks=5, trunc=48, flips=150, pairs=40, zero=5, update_share=6),
+C17_VOLUME = {"quick": dict(full=1, reduced=1, breaks=4, trunc=48, flips=150, pairs=40, zero=5, update_share=6),
               "thorough": dict(full=3, reduced=6, breaks=40, trunc=None, flips=None, pairs=None, zero=12, update_share=4)}
 C17_RULE = ("fault enumeration on generated valid cache directories, each faulted directory given to the real ASan server binary (Euclidean geofilter) at START-UP and, for "
             "every cross-file inconsistency, every deletion and a share of the byte-level faults, through GET /updateCache?names=all&path=<faulted dir> on a healthy running server: "
@@ -1025,6 +1041,13 @@ def crash_kind(out, rc):
     return "exit", "rc%s" % rc
 
 
+def loader_stage(log):
+    """which loader was running last (from the server's own log lines)"""
+    ms = re.findall(r"Fetching ([A-Za-z]+(?: and [A-Za-z]+)?) from cache", log or "")
+    if not ms: return "unknown"
+    return {"trips and connections": "schedules", "dataSources": "data_sources", "odTrips": "od_trips"}.get(ms[-1], ms[-1])
+
+
 def c17_probe(srv, urls, codes, timeout=15.0):
     """4 requests against a server that is up.  -> (outcome text, None | (signature tail, description), answer keys)"""
     keys = []
@@ -1043,6 +1066,8 @@ def c17_probe(srv, urls, codes, timeout=15.0):
         if not bad and st == 400 and j.get("errorCode") not in ("EMPTY_SCENARIO", "MISSING_PARAM_SCENARIO"):
             bad = "HTTP 400 %s for a valid request" % j.get("errorCode")
         if bad:
+            if "invalid UTF-8 byte" in srv.output():
+                return "valid-request-400", ("non-utf8-text-answered-as-query-error", None, "GET %s: %s; server log: %s" % (url, bad, " ".join(re.findall(r"Caught exception[^\n]*", srv.output())[-1:]))), keys
             return "bad-answer", ("bad-answer", (j or {}).get("errorCode") or "malformed", "GET %s: %s" % (url, bad)), keys
         keys.append(answer_key(kind, st, body))
         if first is None:
@@ -1070,7 +1095,7 @@ def c17_startup_test(fdir, urls, codes, server_exe, cache_all, tag):
                 time.sleep(0.2)
                 out = srv.output()
                 how, det = crash_kind(out, srv.proc.poll())
-                return dict(outcome="startup-%s:%s" % (how, det), fail=("startup-" + how, det, "start-up ends with exit code %s: %s" % (srv.proc.poll(), asan_summary(srv.sanitizer_output() or out[-800:]))), noticed=True, keys=[])
+                return dict(outcome="startup-%s:%s" % (how, det), fail=("startup-" + how, det, "start-up ends with exit code %s while loading the %s: %s" % (srv.proc.poll(), loader_stage(out), asan_summary(srv.sanitizer_output() or out[-800:]))), noticed=True, keys=[])
         outcome, fail, keys = c17_probe(srv, urls, codes)
         noticed = "[error]" in srv.output()
         died = not srv.alive()
@@ -1120,21 +1145,22 @@ def c17_update_test(holder, sub, urls, codes):
                 time.sleep(0.3)
                 how, det = crash_kind(srv.output()[mark:], srv.proc.poll())
                 return dict(outcome="update-%s:%s" % (how, det), fail=("update-" + how, det, "GET %s kills the healthy running server (exit code %s): %s" % (u, srv.proc.poll(), asan_summary(srv.sanitizer_output() or srv.output()[-800:]))), noticed=True, keys=[])
-            tail = " ".join(srv.output()[mark:].split())[-200:]
+            stage = loader_stage(srv.output()[mark:])
+            tail = " ".join(srv.output()[mark:].split())[-160:]
             holder.stop()            # its data set is half-refreshed now: do not reuse it
-            return dict(outcome="update-no-response", fail=("update-no-response", "", "GET %s gets no HTTP response (%s); the process stays up with a half-refreshed data set; log ends: %s" % (u, hd.get("_error"), tail)), noticed=True, keys=[])
+            return dict(outcome="update-unanswered:" + stage, fail=("update-unanswered", "@" + stage, "GET %s gets no HTTP response (%s): an exception escapes the handler while the %s are loaded; the process stays up with a half-refreshed data set; log ends: %s" % (u, hd.get("_error"), stage, tail)), noticed=True, keys=[])
         j = parse_body(body) if st == 200 else None
         if not (j and j.get("status") == "success"):
             return dict(outcome="update-bad-answer", fail=("update-bad-answer", "", "GET %s answered %s %r" % (u, st, body[:120])), noticed=True, keys=[])
         outcome, fail, keys = c17_probe(srv, urls, codes)
         noticed = "[error]" in srv.output()[mark:]
         if fail is not None:
-            fail = ("update-then-" + fail[0], fail[1], "after GET %s: %s" % (u, fail[2]))
+            fail = (fail[0] if fail[1] is None else "update-then-" + fail[0], fail[1], "after GET %s: %s" % (u, fail[2]))
             holder.stop()
         return dict(outcome=outcome, fail=fail, noticed=noticed, keys=keys)
     used_before = holder.used if holder.srv is not None and holder.srv.alive() else 0
     res = once(False)
-    if res["fail"] is not None and used_before > 0 and res["outcome"] != "update-no-response":
+    if res["fail"] is not None and used_before > 0 and not res["outcome"].startswith("update-unanswered"):
         # the server had gone through other faulted refreshes before: the alarm must reproduce on a fresh healthy server
         res2 = once(True)
         if res2["fail"] is None:
@@ -1151,7 +1177,16 @@ def c17_replay_text(ds, fault, mode):
 
 
 def c17_signature(fail, cls):
+    """<phase>-<how>:<fault class>:<exception / sanitizer kind>.  The three byte-level injections (truncated-, bitflip-, zeroed-) share
+    the fault class corrupt-<file kind> (which pair fires depends on the bytes hit, the defect class does not); an unanswered
+    /updateCache is ONE defect class per loader stage (the handler lets the loader's exception escape), whatever made the loader throw;
+    text that is not UTF-8 is one defect class whatever file it came from."""
     head, det, desc = fail
+    if det is None:
+        return head
+    if det.startswith("@"):
+        return "%s:%s" % (head, det[1:])
+    cls = re.sub(r"^(truncated|bitflip|zeroed)-", "corrupt-", cls)
     return "%s:%s%s" % (head, cls, (":" + det) if det else "")
 
 
@@ -1197,7 +1232,7 @@ def run_c17(tier, seed, replay=None, theorems=None, module=None):
             dsets = []
             k = 0
             for i in range(vol["full"]): dsets.append((c17_dataset(seed, k), "full", breaks)); k += 1
-            for i in range(vol["reduced"]): dsets.append((c17_dataset(seed, k), "reduced", breaks)); k += 1
+            for i in range(vol["reduced"]): dsets.append((c17_dataset(seed, k), "reduced", None)); k += 1
             for i in range(vol["breaks"]): dsets.append((c17_dataset(seed, k), None, breaks)); k += 1
         t0 = time.time()
         dd = Dedup(rep, stats)
@@ -1274,7 +1309,7 @@ def run_c17(tier, seed, replay=None, theorems=None, module=None):
                             rep.samples.append(dict(dataset=ds["did"], fault=what, mode=mode, outcome=t["outcome"], answers=[k[:120] for k in t["keys"]], healthy_answers=[k[:120] for k in base["keys"]]))
             shutil.rmtree(vdir, ignore_errors=True)
         rep.cov["fault_outcomes"] = {mode: {cls: dict(c) for cls, c in sorted(o.items())} for mode, o in outcomes.items()}
-        rep.cov["signatures"] = {k[4:]: v for k, v in stats.items() if k.startswith("sig ")}
+        dd.finish()
         rep.cov["input_distribution"] = {k: v for k, v in stats.items() if not k.startswith("sig ")}
         rep.cov["timing"] = dict(run_s=round(time.time() - t0, 1), servers_in_parallel=PAR)
         return rep.finish()
